@@ -31,7 +31,7 @@ def parseCsf (ws : List String) : Option CsfIn := do
   pure { feeAmt := fee, convAmt := conv, others := others, navP := p, navA := a, bips := bips, sameDenom := same = "1" }
 
 /-- `den:amt:bips:rcpt` (`-` = no recipient) -/
-def parseDistCall (s : String) : Option DistCall :=
+def parseDistCall (s : String) : Option FeeDistCall :=
   match s.splitOn ":" with
   | [den, amt, bips, rcpt] =>
     match parseInt? amt, parseNat? bips with
@@ -44,7 +44,7 @@ def distRecips : List String := ["r1", "r2", "r3"]
 
 private def perDenom (f : Denom → Int) : String := "/".intercalate (distDenoms.map fun d => toString (f d))
 
-def showDist (s : Dist) : String :=
+def showDist (s : FeeDist) : String :=
   let rs := distRecips.map fun r => s!"{r}={perDenom (Ledger.bal s.recips r)}"
   s!"ok t={perDenom (Coins.amountOf s.total)} m={perDenom (Coins.amountOf s.module)} " ++ " ".intercalate rs
 
@@ -56,7 +56,7 @@ def run (ws : List String) : String :=
   match ws with
   | ["dist", calls] =>
     match (splitList calls).mapM parseDistCall with
-    | some cs => showE showDist (increaseAll {} cs)
+    | some cs => showE showDist (distIncreaseAll {} cs)
     | none => "bad-op"
   | ["quoup", a, b] =>
     match ints [a, b] with
@@ -96,7 +96,7 @@ def check (ws : List String) (impl : String) : String :=
     | some cs =>
       -- a call is refused only when it is reached, has something to split (positive amount, a
       -- recipient) and names more than 10000 basis points (`increase_fails_iff`)
-      let reachedInvalid := match increaseAll {} cs with | .error _ => true | .ok _ => false
+      let reachedInvalid := match distIncreaseAll {} cs with | .error _ => true | .ok _ => false
       if reachedInvalid then
         (if impl = "err:invalid" then "ok" else "fail:dist_accepts_invalid_bips")
       else
